@@ -15,7 +15,7 @@ Inductive http_answer :=
 | ScriptPath                   (* accepted Numscript request: executed by the machine, not modelled here (C22..C28) *)
 | Answered (r : result).       (* the controller's answer: 200 or a business error *)
 
-Definition handle_v2_create (pt : string -> option Z) (f : features) (now : Z) (s : state) (body : json) (ik : str) (dry : bool) : state * http_answer :=
+Definition handle_v2_create (pt : string -> option Z) (f : features) (now : Z) (s : state) (body : ajson) (ik : str) (dry : bool) : state * http_answer :=
   match decode_v2_tx pt body with
   | ClientError e => (s, Rejected e)
   | Panic => (s, Crashed)
